@@ -56,14 +56,20 @@ func (c *caseC19) req(s stepC19) *wire.Req {
 // over Go maps (which dependency breaks independence, which names are left in the context, which
 // labels are not matched), so their wording legitimately differs from run to run.
 func errKey(e string) string {
+	loc, detail := "", e
 	if i := strings.Index(e, ";"); i > 0 && strings.HasPrefix(e, "(") {
-		return e[:i]
+		loc, detail = e[:i], strings.TrimSpace(e[i+1:])
 	}
-	f := strings.Fields(e)
-	if len(f) > 4 {
-		f = f[:4]
+	// the kind of error: the leading words of the message's fixed wording, cut at the first word
+	// that quotes a name, a type or a number
+	var kind []string
+	for _, w := range strings.Fields(detail) {
+		if strings.ContainsAny(w, "'\"(<[{0123456789") || len(kind) >= 4 {
+			break
+		}
+		kind = append(kind, w)
 	}
-	return strings.Join(f, " ")
+	return loc + " | " + strings.Join(kind, " ")
 }
 
 // observable part of a response
